@@ -4,14 +4,14 @@ import json, os
 ROOT = os.path.dirname(os.path.dirname(os.path.abspath(__file__)))
 BASE = "cd /repo && /venv/bin/python -m pytest -ra -q -p no:cacheprovider --timeout=900 --continue-on-collection-errors"
 CONDITIONS = {
- "C01": "layout, multi_residue, modifications, gen_params_mods, guarded_links", "C02": "catalogue (17 link families), dangling",
- "C03": "box_rule, density_box, order, completeness, end_to_end, accepted_is_built", "C04": "consume, coordfile, retry_ignore, backmap_flagged, rewind_supplied, end_to_end",
- "C05": "step, step_length, acceptance, overlap, start_on_grid, start_check", "C06": "rotation, placement, centred, templates_centred, factor_wiring",
- "C07": "geometry, direction, min_image, milestones, bounds, cycles, end_to_end, build_file_selection", "C08": "flatten (known finding F20)",
+ "C01": "layout, multi_residue, modifications, gen_params_mods, guarded_links", "C02": "catalogue (18 link families), dangling",
+ "C03": "box_rule, density_box, order, completeness, end_to_end, accepted_is_built, engine_positions", "C04": "consume, coordfile, retry_ignore, backmap_flagged, rewind_supplied, end_to_end, templates_centred",
+ "C05": "step, step_length, acceptance, overlap, start_on_grid, start_check, engine_histories", "C06": "rotation, placement, centred, templates_centred, factor_wiring",
+ "C07": "geometry, direction, min_image, milestones, bounds, cycles, end_to_end, build_file_selection, own_restraints, cycles_all_copies", "C08": "flatten (known finding F20)",
  "C09": "dihedral_match, bonded, bonded_misc, nonbonded", "C10": "missing_edges, warnings, connectivity_gate, fragments, after_removal",
- "C11": "round_trip", "C12": "plain, files, linear, genseq, genseq_from_file, plain_strings (CrossHair)", "C13": "relabel, history, hash_seed, json_listing_order",
- "C14": "exclusions", "C15": "virtual_sites, dihedral_sign, grouping, verdict, precedence", "C16": "histories, force_law, min_image",
- "C17": "rewind", "C18": "build_file_ranges, residue_spec, split, ligands, molecule_sections (known finding F22b), spec_strings (CrossHair)",
+ "C11": "round_trip", "C12": "plain, files, linear, genseq, genseq_from_file, plain_strings (CrossHair)", "C13": "relabel, history, hash_seed, json_listing_order, termini_order",
+ "C14": "exclusions", "C15": "virtual_sites, dihedral_sign, grouping, verdict, precedence, size_coincident", "C16": "histories, force_law, min_image",
+ "C17": "rewind", "C18": "build_file_ranges, residue_spec, split, ligands, molecule_sections (known finding F22b), spec_strings (CrossHair), ligands_by_name",
  "C19": "complement, gen_params", "C20": "gen_params, gen_coords, gen_seq",
 }
 NOTE_COMMON = ("Trusted base: z3 5.1 (verdicts), CPython/numpy/networkx/vermouth as the semantics the real code runs on, the symx "
